@@ -46,7 +46,33 @@ def showBlock (b : Block) : String :=
      | none => "_"
      | some d => "[" ++ showQ3 d.1 ++ "," ++ showQ3 d.2 ++ "]")
 
+def parseBlock? (hg ori ch bd dp : String) : Option Block := do
+  let hg ← parseBool? hg
+  let ori ← parseRat? ori
+  let ch ← parseList? parseChild? ch
+  let bd ← parseList? parseRatList? bd
+  let disp : Option (Q3 × Q3) ← (if dp = "_" then some none else
+    match parseRatList? dp with
+    | some [x, y] => some (some (Q3.ofRat x, Q3.ofRat y))
+    | _ => none)
+  some { hasGrid := hg, children := ch, orientation := ori, boundary := bd, disp := disp }
+
+def parseBlocks? : List String → Option (List Block)
+  | [] => some []
+  | hg :: ori :: ch :: bd :: dp :: rest => do
+    let b ← parseBlock? hg ori ch bd dp
+    let more ← parseBlocks? rest
+    some (b :: more)
+  | _ => none
+
 def answer : List String → String
+  | "rotassembly" :: rn :: third :: rem :: tol :: rest =>
+      -- rotassembly rotNum pi/3 remainder tol  (hasGrid orientation CHILDREN BOUNDARY DISP)*  ->  block ; block ; ...
+      match parseInt? rn, parseRat? third, parseRat? rem, parseRat? tol, parseBlocks? rest with
+      | some rn, some third, some rem, some tol, some bs =>
+        if rn < 0 ∨ rn > 6 then "bad-op" else
+        showOpt (fun l => " ; ".intercalate (l.map showBlock)) (rotateHexAssembly third rem tol rn bs)
+      | _, _, _, _, _ => "bad-op"
   | ["indomain", th, ov, i, j] => match parseBool? th, parseBool? ov, parseInt? i, parseInt? j with
       | some th, some ov, some i, some j => showBool (hexInDomain th ov (i, j))
       | _, _, _, _ => "bad-op"
